@@ -26,6 +26,7 @@ LEVEL = "exploration"
 RULE = (
     "programs = recording callable (unsafe / alters_data method, function, static and class method, callable object, "
     "class; markers held in the instance dict, on the class, inherited, as a property, in __slots__ or served by __getattr__; "
+    "callable objects and functions whose call is decorated with pass_context / pass_eval_context / pass_environment; "
     "callables flagged alters_data / unsafe_callable only after a first safe use; C-implemented builtin functions and "
     "bound methods rejected by name by the overriding environment (effect on the data observed); bound methods the "
     "overriding environment rejects because of their instance (__self__ marked) or by a block list of bound methods; "
@@ -272,6 +273,53 @@ def make_world():
     bl, bd, bs = [0], {"a": 1}, "abc"
     late_obj = LateObj("late_obj")
     extra.update({"late_fn": late_fn, "late_obj": late_obj, "bl": bl, "bd": bd, "bs": bs, "getcwd": os.getcwd, "blen": len})
+    from jinja2 import pass_context, pass_environment, pass_eval_context
+
+    def pc_class(deco, **class_marks):
+        class PC:
+            def __init__(self, name, **marks):
+                self._name = name
+                for m, v in marks.items():
+                    setattr(self, m, v)
+
+            @deco
+            def __call__(self, injected, *a, **k):
+                # the engine passes the context / eval context / environment first
+                return rec(self._name, a, k)
+
+            def __repr__(self):
+                return "<pc %s>" % self._name
+
+        for m, v in class_marks.items():
+            setattr(PC, m, v)
+        return PC
+
+    @unsafe
+    @pass_context
+    def pcfn_ctx_unsafe(injected, *a, **k):
+        return rec("pcfn_ctx_unsafe", a, k)
+
+    @pass_environment
+    def pcfn_env_alters(injected, *a, **k):
+        return rec("pcfn_env_alters", a, k)
+
+    pcfn_env_alters.alters_data = True
+    pcs = {
+        "pc_ctx_unsafe": pc_class(pass_context)("pc_ctx_unsafe", unsafe_callable=True),
+        "pc_ctx_class_alters": pc_class(pass_context, alters_data=True)("pc_ctx_class_alters"),
+        "pc_eval_unsafe": pc_class(pass_eval_context)("pc_eval_unsafe", unsafe_callable=True),
+        "pc_eval_class_unsafe": pc_class(pass_eval_context, unsafe_callable=True)("pc_eval_class_unsafe"),
+        "pc_env_alters": pc_class(pass_environment)("pc_env_alters", alters_data=True),
+        "pc_env_class_unsafe": pc_class(pass_environment, unsafe_callable=True)("pc_env_class_unsafe"),
+        "pc_ctx_listed": pc_class(pass_context)("pc_ctx_listed"),
+        "pc_env_listed": pc_class(pass_environment)("pc_env_listed"),
+        "pc_ctx_plain": pc_class(pass_context)("pc_ctx_plain"),
+        "pc_env_plain": pc_class(pass_environment)("pc_env_plain"),
+        "pcfn_ctx_unsafe": pcfn_ctx_unsafe,
+        "pcfn_env_alters": pcfn_env_alters,
+    }
+    extra.update(pcs)
+    extra["pcd"] = {"f": pcs["pc_ctx_unsafe"]}
     mdl = Box("mdl.")
     mdl.vt_model = True
     mdl.child = Box("mdl.child.")
@@ -334,7 +382,7 @@ def check_case(case):
             raise core.Violation("generated code calls a template value without environment.call: %s (template %s)%s" % (bad[0], tname, where))
 
     ctx, log, table = make_world()
-    env.vt_blocklist = [ctx["u"].listed]
+    env.vt_blocklist = [ctx["u"].listed, ctx["pc_ctx_listed"], ctx["pc_env_listed"]]
     for cname, pyname in (case.get("ctxbind") or {}).items():
         ctx[cname] = table[pyname]  # the recorder is a context variable with an engine-special name
     for prior in case.get("prior") or ():
